@@ -27,7 +27,7 @@ SPEC = {
     ],
     "tiers": {
         "quick": {"shards": 16, "budget_s": 75, "extra": {"traces": 110, "arb": 100, "real-commits": 2}},
-        "thorough": {"shards": 16, "budget_s": 1100, "extra": {"traces": 9000, "arb": 3000, "real-commits": 5}},
+        "thorough": {"shards": 16, "budget_s": 1200, "extra": {"traces": 6000, "arb": 3000, "real-commits": 5}},
     },
     "floors": {
         "quick": {
@@ -49,17 +49,29 @@ SPEC = {
             "store_answers_adversarial": 370, "real_rebuilds": 130, "emulated_rebuilds": 540,
             "crash_restarts_from_sqlite": 140, "arbitrary_state_roundtrips": 550,
             "repeat_calls_while_broadcast_outstanding": 840, "other_account_migration_intact": 1000,
-            "write_faults_injected_mid_transaction": 40,
+            "write_faults_injected_mid_transaction": 40, "event_mark_mined": 100,
         },
         "thorough": {
-            "evaluations": 2000000, "distinct_nontrivial": 100000, "traces": 100000, "traces_real": 15000,
-            "advance_calls": 1500000, "broadcast_offers_checked": 150000, "priority_checks_with_proved_rows": 300000,
-            "withheld_doomed_window": 20000, "withheld_partially_mined_dependencies": 500,
-            "stuck_checks_all_unmined_dead": 80000, "rollbacks_applied": 100000, "rollback_unmined_transactions": 30000,
-            "rollback_mined_exactly_at_height_kept": 8000, "complete_reverted_by_rollback": 1000,
-            "events_on_policy_terminal_migration": 100000, "reached_complete": 10000,
-            "persist_roundtrips_sqlite": 1000000, "wallet_driven_truncations": 15000,
-            "guard_probes_over_live_migration": 300000, "arbitrary_state_roundtrips": 40000,
+            "evaluations": 1570000, "distinct_nontrivial": 340000, "traces": 43000, "traces_real": 9500,
+            "advance_calls": 1030000, "broadcast_offers_checked": 120000,
+            "broadcast_offered_exactly_when_due": 95000, "broadcast_offered_at_last_valid_height": 5100,
+            "priority_checks_with_proved_rows": 340000, "withheld_doomed_window": 46000,
+            "withheld_open_failure_report": 3800, "withheld_partially_mined_dependencies": 1100,
+            "withheld_not_yet_satisfiable": 800, "stuck_checks_all_unmined_dead": 69000,
+            "all_dead_step_replan": 37000, "rollbacks_applied": 78000, "rollback_unmined_transactions": 39000,
+            "rollback_kept_mined_transactions": 150000, "rollback_mined_exactly_at_height_kept": 9600,
+            "complete_reverted_by_rollback": 1400, "events_on_policy_terminal_migration": 240000,
+            "event_mark_cancelled": 42000, "event_mark_superseded": 61000, "reached_complete": 7000,
+            "persist_roundtrips_memory": 1600000, "persist_roundtrips_sqlite": 1120000,
+            "persist_terminal_history_reads": 220000, "wallet_driven_truncations": 21000,
+            "update_transaction_checks": 39000, "guard_probes_over_live_migration": 130000,
+            "guard_probes_over_terminal_migration": 54000, "guard_probe_status_in_progress": 100000,
+            "second_pending_row_refused_by_database": 6200, "failure_reports_adjudicated": 22000,
+            "sweep_promoted_unrecorded_broadcast": 13000, "overdue_shifts": 120000, "marks_recorded": 42000,
+            "store_answers_adversarial": 27000, "real_rebuilds": 9000, "emulated_rebuilds": 42000,
+            "crash_restarts_from_sqlite": 11000, "arbitrary_state_roundtrips": 21000,
+            "repeat_calls_while_broadcast_outstanding": 63000, "other_account_migration_intact": 43000,
+            "write_faults_injected_mid_transaction": 4200, "event_mark_mined": 8700,
         },
     },
     "manifest": {
